@@ -23,6 +23,17 @@ class SVCase:
 @st.composite
 def sv_cases(draw: Any, feat: Optional[S.Features] = None, nrand: int = 2, max_leaves_for_values: int = 4000, config: Optional[st.SearchStrategy] = None) -> SVCase:
     unit = draw(S.units(feat))
+    # a satisfied `option max_bytes` must change nothing (C08/C13 own its acceptance boundary)
+    for m in unit_messages(unit):
+        if m.max_bytes is None and ref.nbits(m) > 0 and draw(st.integers(0, 9)) == 0:
+            m.max_bytes = ref.nbytes(m) + draw(st.sampled_from([0, 0, 1, 7]))
+    # so must the deprecated `typedef T Name` spelling of an alias (it only prints a deprecation note)
+    from .model import Alias
+
+    for f in unit.files:
+        for it in f.items:
+            if isinstance(it, Alias) and draw(st.integers(0, 5)) == 0:
+                it.typedef_syntax = True
     rand: Dict[int, List[Any]] = {}
     for i, m in enumerate(unit_messages(unit)):
         if ref.has_empty_enum(m):
@@ -33,7 +44,19 @@ def sv_cases(draw: Any, feat: Optional[S.Features] = None, nrand: int = 2, max_l
             k = nrand
         rand[i] = [draw(S.values(m)) for _ in range(k)]
     cfg = draw(config) if config is not None else {}
-    return SVCase(unit, rand, None, cfg)
+    style = None
+    if draw(st.integers(0, 3)) == 0:
+        # the way a schema is written must not matter: vary it (the source map / lint checks own the conforming style)
+        style = render_bp.Style(
+            indent=draw(st.sampled_from([4, 2, 8, 0])),
+            semicolons=draw(st.sampled_from(["none", "all", "mixed"])),
+            comments=draw(st.booleans()),
+            blank_lines=draw(st.integers(0, 2)),
+            hex_numbers=draw(st.booleans()),
+            seed=draw(st.integers(0, 999)),
+            trailing_newline=draw(st.booleans()),
+        )
+    return SVCase(unit, rand, style, cfg)
 
 
 def vectors(case: SVCase, index: int, m: Message, basis_limit_bits: int = 512) -> List[Tuple[str, Any]]:
